@@ -2,7 +2,7 @@
   Oracle commands for C09 (registry client).  Digests are written as the hex of their pre-image
   (`D := Bytes`, `H := id`).
 
-    pull <thr> <limit|-1> <linkShortcut 0|1> <nattempts> {attempt}*
+    pull <thr> <limit|-1> <linkShortcut 0|1> <verifyBeforeLink 0|1> <nattempts> {attempt}*
       attempt := <name> ( manerr <cls> | man <id> <dataLen> <nlayers> {<dig> <size>}* <hascfg 0|1> [<dig> <size>] )
                  <nplans> {plan}* <nsteps> {step}*
       plan    := pfail | plist <n> {<dig> <start> <len>}*
@@ -101,18 +101,18 @@ def pAttempt : TP (Attempt Dg) := do
   pure ⟨name, man, plans, steps⟩
 
 /-- number of waiting chunk requests before each step -/
-def waiting (limit : Option Nat) : Run Dg → List Step → List Nat
+def waiting (verify : Bool) (limit : Option Nat) : Run Dg → List Step → List Nat
   | _, [] => []
   | st, s :: ss =>
-    st.inflight.length :: (match step id limit st s with
+    st.inflight.length :: (match step id verify limit st s with
       | none => []
-      | some st' => waiting limit st' ss)
+      | some st' => waiting verify limit st' ss)
 
 def showAttempt (cfg : Cfg) (c : Cache Dg) (a : Attempt Dg) : String × Cache Dg :=
   let r := pull id cfg c a
   let (ns, layers) := match a.man with
     | .error _ => ([], [])
-    | .ok m => (if m.layers.isEmpty then [] else waiting cfg.limit (startRun cfg c m a.plans) a.steps, m.all)
+    | .ok m => (if m.layers.isEmpty then [] else waiting cfg.verify cfg.limit (startRun cfg c m a.plans) a.steps, m.all)
   let link := match r.1.links a.name with
     | some m => toString m.id
     | none => "none"
@@ -165,8 +165,9 @@ def handle (toks : List String) : Option String :=
       let thr ← nat
       let lim ← int
       let sc ← pBool
+      let vf ← pBool
       let as ← listOf pAttempt
-      let cfg : Cfg := ⟨thr, if lim < 0 then none else some lim.toNat, sc⟩
+      let cfg : Cfg := ⟨thr, if lim < 0 then none else some lim.toNat, sc, vf⟩
       pure (joinWith " | " (showHistory cfg Cache.empty as))) rest
   | "push" :: rest =>
     runTP (do
